@@ -975,7 +975,12 @@ func (p *Prov) justify1(s *Sink) string {
 			return false
 		}
 		rx := rootOf(x)
-		return rx == root || rx == v || x == v
+		if rx == root || rx == v || x == v {
+			return true
+		}
+		// the same member read twice (`el.Value` tested, `el.Value` stored): two loads of one
+		// field of the element of a parsed, read-only document
+		return sameExpr(rx, root)
 	}
 	tbl := func(name string) bool {
 		return has(func(a Atom) bool { return a.Kind == "tbl" && a.Pol && a.Name == name })
